@@ -236,7 +236,7 @@ def r1(ctx, dr, ex, outs, msg):
     repo = ctx.repo
     rvar0 = lookup_var(dr, "region_by_circuit_addr")
     # (function, call, message name there, region name there, call site in datagram_received or None)
-    sa_sites = [(dr, c, msg, rvar0, None) for c in find_calls(dr.node, "send_acks", into_defs=False)]
+    sa_sites = [(dr, c, msg, rvar0, None, None) for c in find_calls(dr.node, "send_acks", into_defs=False)]
     for hc in calls(dr.node, into_defs=False):
         h = resolve_method_call(repo, dr, hc)
         if h is None or h == dr:
@@ -245,12 +245,12 @@ def r1(ctx, dr, ex, outs, msg):
         amap = {ap(a_): params[i] for i, a_ in enumerate(hc.args) if i < len(params) and ap(a_)}
         amap.update({ap(k.value): k.arg for k in hc.keywords if k.arg and ap(k.value)})
         for c in find_calls(h.node, "send_acks", into_defs=False):
-            sa_sites.append((h, c, amap.get(msg), amap.get(rvar0), hc))
+            sa_sites.append((h, c, amap.get(msg), amap.get(rvar0), hc, amap.get(f"{rvar0}.circuit")))
     ctx.ob("C19.R1", "datagram_received acknowledges reliable packets (send_acks)", len(sa_sites) >= 1, dr.where,
            "no acknowledgement is ever sent: the peer retransmits every reliable packet until it gives up")
     verdict_names = {ap(st.target) for st in stores(dr.node, into_defs=False) if st.kind == "assign"
                      and isinstance(st.value, ast.Call) and call_attr(st.value) == "track_reliable"}
-    for fn_, c, msg_, rvar_, via in sa_sites:
+    for fn_, c, msg_, rvar_, via, circ_ in sa_sites:
         ids = arg_of(c, 0, "to_ack")
         if isinstance(ids, ast.Name):
             ids = single_assign(fn_.node, ids.id) or ids
@@ -263,7 +263,8 @@ def r1(ctx, dr, ex, outs, msg):
                d is None or (ap(d) or "").endswith("Direction.OUT"), ctx.w(fn_, c), f"direction {norm(d) if d is not None else None}")
         recv = resolve_path(fn_.node, c.func.value) if isinstance(c.func, ast.Attribute) else None
         ctx.ob("C19.R1", "datagram_received: the ack is sent on the circuit the packet arrived on",
-               rvar_ is not None and recv == f"{rvar_}.circuit", ctx.w(fn_, c), f"receiver {recv}")
+               (rvar_ is not None and recv == f"{rvar_}.circuit") or (circ_ is not None and recv == circ_),
+               ctx.w(fn_, c), f"receiver {recv}")
         extra = []
         levels = [(c, fn_, msg_, rvar_)] + ([(via, dr, msg, rvar0)] if via is not None else [])
         for nd, f_, m_, r_ in levels:
